@@ -67,3 +67,40 @@ def play(tw, rng, nsteps, seed_reset):
         out.append([canon(res), canon(tw.probe())])
         live, ended = tw.live_after_step(res)
     return out
+
+
+def play_lockstep(a, b, seed_actions, nsteps, seed_reset):
+    """The same episode on two objects that are BOTH alive and called alternately (call by call), each
+    with its own copy of the global random generators' state, so that equal objects see equal streams.
+    State that leaks between two instances of a class (a mutable class attribute, a module-level
+    cache) shows up as a difference between the two outputs, which a run of one object after the other
+    cannot see.  Returns the two output lists."""
+    tws = (a, b)
+    random.seed(seed_reset)
+    np.random.seed(seed_reset)
+    st = [(random.getstate(), np.random.get_state()) for _ in tws]
+    rngs = [random.Random(seed_actions) for _ in tws]
+    outs = ([], [])
+
+    def call(i, f):
+        random.setstate(st[i][0])
+        np.random.set_state(st[i][1])
+        try:
+            return f()
+        finally:
+            st[i] = (random.getstate(), np.random.get_state())
+
+    live, ended = [None, None], [False, False]
+    for i, tw in enumerate(tws):
+        obs = call(i, tw.reset)
+        outs[i].append([canon(obs), canon(tw.probe())])
+        live[i] = tw.live_after_reset(obs)
+    for _ in range(nsteps):
+        for i, tw in enumerate(tws):
+            if ended[i] or not live[i]:
+                continue
+            acts = {k: sample_action(tw.agents[k].action_space, rngs[i]) for k in live[i]}
+            res = call(i, lambda: tw.step(acts))
+            outs[i].append([canon(res), canon(tw.probe())])
+            live[i], ended[i] = tw.live_after_step(res)
+    return outs
